@@ -290,7 +290,7 @@ class G:
         var = r.choice(["i", "j", "k", "item"])
         src = r.choice(["range(%d)" % r.randint(0, 4), "range(1, %d)" % r.randint(1, 5),
                         "list(%s)" % self.list_expr(scope, 1),      # a copy: the body may mutate the list
-                        "enumerate(%s)" % self.str_expr(scope, 2)])
+                        "enumerate(%s[:4])" % self.str_expr(scope, 2)])     # bounded, whatever the body appends
         if src.startswith("enumerate"):
             self.emit("for %s, ch in %s:" % (var, src), ind)
             scope["ch"] = "str"
@@ -713,6 +713,9 @@ def gen_case(rng, size="small", exhausted_ok=False):
         inputs = [rng.choice(INPUT_POOL) for _ in range(n_in * 6 + rng.randint(0, 2))]
     if rng.random() < 0.6:          # mostly numeric replies, so that int(input()) usually succeeds
         inputs = [x if x.strip().lstrip("-").isdigit() else rng.choice(["4", "0", "17", " 8", "-3"]) for x in inputs]
+    if rng.random() < 0.03 and '"""' not in code:
+        code = code.replace("\n", "\r\n")          # Windows line endings: same line numbers for CPython
+        g.shape.add("crlf")
     case = {"code": code, "filename": rng.choice(["answer.py", "answer.py", "answer.py", "student.py", "hw 1.py"]),
             "inputs": inputs, "calls": g.follow_up_calls(), "api": rng.choice(["commands", "sandbox"]),
             "shape": sorted(g.shape)}
